@@ -180,7 +180,7 @@ META["C10"] = dict(
     gates={
         "mon.validate": g(2000, 20000),
         "st.union_with_lenient_member_before_class": g(50, 500), "st.union_of_dataclasses_sharing_a_field": g(50, 500),
-        "mon.simple_fixed_points": g(80, 800), "mon.hostile_string_fixed_points": g(150, 150),
+        "mon.simple_fixed_points": g(80, 800), "st.dict_kwargs_string_values": g(50, 500), "mon.hostile_string_fixed_points": g(150, 150),
         "mon.reparse_object": g(2000, 20000),
         "mon.dump_parse_dump.yaml": g(500, 5000),
         "mon.dump_parse_dump.json": g(500, 5000),
